@@ -505,6 +505,10 @@ func runX11(p *an.Prog, r *an.Result) {
 					}
 				}
 			}
+			// the class of the kind compared with a constant (classOf(kind) == listClass), read as a table
+			if _, in, known := kindTestOnEdge(p, cond, taken); known && !in[k] {
+				return true
+			}
 			b, ok := cond.(*ssa.BinOp)
 			if !ok || !(b.Op == token.EQL && !taken || b.Op == token.NEQ && taken) {
 				return false
